@@ -177,24 +177,32 @@ def Wrapped (periodic : Bool) (n p : ℕ) (c : ℕ → K) : Prop := periodic = t
 
 /-! ### 2-D: two sweeps of 1-D solves (interp.py:225-252) -/
 
-/-- `sol2 i1` : what the solver of direction 2 returned for the data row `ug[i1, :]`;
-    `sol1 i2` : what the solver of direction 1 returned for `wt[i2, :n1]`; `w0` previous content of `spl.coeffs`. -/
+/-- first sweep (interp.py:230-232): `w[i1, :] = spline2.coeffs` after interpolating the data row `ug[i1, :]` along
+    direction 2; `sol2 i1` is what the solver of direction 2 returned for that row; rows `≥ n1` keep their content -/
+def sweepFirst (n1 : ℕ) (per2 : Bool) (n2 p2 : ℕ) (sol2 w0 : ℕ → ℕ → K) : ℕ → ℕ → K := fun k1 k2 =>
+  if k1 < n1 then computeInterpolant1D per2 n2 p2 (sol2 k1) (fun _ => 0) k2 else w0 k1 k2
+
+/-- second sweep on the transposed array (interp.py:239-241): `wt[i2, :] = spline1.coeffs` after interpolating
+    `wt[i2, :n1]` along direction 1; `sol1 i2` is what the solver of direction 1 returned for that row -/
+def sweepSecond (per1 : Bool) (n1 p1 n2 : ℕ) (sol1 wt : ℕ → ℕ → K) : ℕ → ℕ → K := fun k2 k1 =>
+  if k2 < n2 then computeInterpolant1D per1 n1 p1 (sol1 k2) (fun _ => 0) k1 else wt k2 k1
+
+/-- `a[n:n+p, :] = a[:p, :]` if periodic (interp.py:244-245, :251-252) -/
+def wrapRows (per : Bool) (n p : ℕ) (a : ℕ → ℕ → K) : ℕ → ℕ → K := fun r c =>
+  if per = true ∧ n ≤ r ∧ r < n + p then a (r - n) c else a r c
+
+/-- `a.transpose()` -/
+def transpose (a : ℕ → ℕ → K) : ℕ → ℕ → K := fun i j => a j i
+
+/-- `SplineInterpolator2D.compute_interpolant` (interp.py:225-252); `w0` = previous content of `spl.coeffs` -/
 def interpolate2D (per1 : Bool) (n1 p1 : ℕ) (per2 : Bool) (n2 p2 : ℕ) (sol2 sol1 : ℕ → ℕ → K) (w0 : ℕ → ℕ → K) :
     ℕ → ℕ → K :=
-  -- first sweep: w[i1, :] = spline2.coeffs
-  let w1 : ℕ → ℕ → K := fun k1 k2 =>
-    if k1 < n1 then computeInterpolant1D per2 n2 p2 (sol2 k1) (fun _ => 0) k2 else w0 k1 k2
-  -- wt[:, :] = w.transpose()
-  let wt : ℕ → ℕ → K := fun k2 k1 => w1 k1 k2
-  -- second sweep: wt[i2, :] = spline1.coeffs
-  let wt2 : ℕ → ℕ → K := fun k2 k1 =>
-    if k2 < n2 then computeInterpolant1D per1 n1 p1 (sol1 k2) (fun _ => 0) k1 else wt k2 k1
-  -- wt[n2:n2+p2, :] = wt[:p2, :]
-  let wt3 : ℕ → ℕ → K := fun k2 k1 => if per2 = true ∧ n2 ≤ k2 ∧ k2 < n2 + p2 then wt2 (k2 - n2) k1 else wt2 k2 k1
-  -- w[:, :] = wt.transpose()
-  let w4 : ℕ → ℕ → K := fun k1 k2 => wt3 k2 k1
-  -- w[n1:n1+p1, :] = w[:p1, :]
-  fun k1 k2 => if per1 = true ∧ n1 ≤ k1 ∧ k1 < n1 + p1 then w4 (k1 - n1) k2 else w4 k1 k2
+  let w1 := sweepFirst n1 per2 n2 p2 sol2 w0                  -- first sweep, works on spl.coeffs
+  let wt := transpose w1                                       -- wt[:, :] = w.transpose()
+  let wt2 := sweepSecond per1 n1 p1 n2 sol1 wt                 -- second sweep, works on self._bwork
+  let wt3 := wrapRows per2 n2 p2 wt2                           -- wt[n2:n2+p2, :] = wt[:p2, :]
+  let w4 := transpose wt3                                      -- w[:, :] = wt.transpose()
+  wrapRows per1 n1 p1 w4                                       -- w[n1:n1+p1, :] = w[:p1, :]
 
 /-- the data handed to the second sweep: `wt[i2, :n1]` after the first sweep -/
 def sweep1Data (sol2 : ℕ → ℕ → K) : ℕ → ℕ → K := fun i2 i1 => sol2 i1 i2
